@@ -100,5 +100,11 @@ mk(G,'g19_summary_temp','-','src/mem/queues.rs','            summary.queues.inse
 mk(G,'g20_range_unbounded_usize','-',MQ,'            Bound::Unbounded => 0,\n        };\n        (start_idx','            Bound::Unbounded => 0usize,\n        };\n        (start_idx','literal suffix')
 mk(G,'g21_inc_commute','-',FN,'let new_number = *curr.file_number + 1u64;','let new_number = 1u64 + *curr.file_number;','commuted sum')
 mk(G,'g23_gc_annot','-','src/multi_record_log.rs','        let mut num_bytes_written = 0;\n\n        if self\n            .record_log_writer\n            .directory()','        let mut num_bytes_written: u64 = 0;\n\n        if self\n            .record_log_writer\n            .directory()','type annotation on a local')
+QS='src/mem/queues.rs'
+mk(B,'b52_size_drops_names','C16',QS,'.map(|(name, queue)| name.len() + queue.size())','.map(|(_name, queue)| queue.size())','used bytes no longer count the queue names')
+mk(B,'b53_size_swapped','C16',QS,'        (size, capacity)\n','        (capacity, size)\n','(used, allocated) returned in the wrong order')
+mk(B,'b54_size_cap_len','C16',QS,'.map(|(name, queue)| name.capacity() + queue.capacity())','.map(|(name, queue)| name.len() + queue.size())','allocated reported as used')
+mk(G,'g24_size_commute','-',QS,'.map(|(name, queue)| name.len() + queue.size())','.map(|(name, queue)| queue.size() + name.len())','commuted per-queue term')
+mk(G,'g25_size_names','-',QS,'.map(|(name, queue)| name.capacity() + queue.capacity())','.map(|(queue_name, mem_queue)| queue_name.capacity() + mem_queue.capacity())','renamed closure bindings')
 shutil.rmtree(W, ignore_errors=True)
 subprocess.run(['git','-C','/repo','worktree','prune'],check=True)
